@@ -126,8 +126,8 @@ Proof.
       replace (Z.to_nat (Z.of_nat (S (length vals)) - 1)) with (length vals) by lia.
       change (Z.to_nat 1) with 1%nat. cbn [skipn]. rewrite firstn_all.
       unfold go_range, indexed.
-      change (go_iter _ (combine (zseq 0 (length vals)) vals) m)
-        with (go_iter (row_body o R c ([] ++ d :: ds)) (combine (zseq (Z.of_nat (length (@nil N))) (length vals)) vals) m).
+      timeout 120 (change (go_iter _ (combine (zseq 0 (length vals)) vals) m)
+        with (go_iter (row_body o R c ([] ++ d :: ds)) (combine (zseq (Z.of_nat (length (@nil N))) (length vals)) vals) m)).
       rewrite (row_loop o R c vals [] (d :: ds) m).
       destruct (set_row o c (d :: ds) vals m); reflexivity.
 Qed.
@@ -230,6 +230,6 @@ Theorem imp_Symmetrical (m : smatrix) :
 Proof.
   unfold imp_alignf_SubstitutionMatrix_Symmetrical, symmetrical. cbv zeta.
   unfold go_range, indexed.
-  change (go_iter _ ?l []) with (go_iter (sym_body m) l []).
+  timeout 120 (change (go_iter _ ?l []) with (go_iter (sym_body m) l [])).
   rewrite sym_loop. apply sym_finish.
 Qed.
